@@ -338,6 +338,11 @@ func (t *Tokenizer) tokenizeBuffer(buf []byte, last bool) error {
 				t.mode = dotMap
 				continue
 			}
+			if len(buf) <= off+1 || digitMap[buf[off+1]] != numDigit {
+				// At least one digit must follow the decimal point.
+				t.mode = dotMap
+				continue
+			}
 			for i, b = range buf[off+1:] {
 				if digitMap[b] != numDigit {
 					break
